@@ -80,8 +80,9 @@ var c20Titlecase = []string{`ᾈ`, `xᾈ`, `ᾈ+`, `Ⅰ`, `Ⅰ*x`, `Ⓐ`, `aⒶ`
 // the orbit relation B ((?i)ǅ did not match "ǆ")
 var c20TitlecaseOrbit = []string{`ǅ`, `xǅ`, `ǅ+`, `ǈ`, `[ǅ]`, `ǲ?a`, `[^ǅ]`}
 
-// long aliases of the cased-letter categories: addCategory widens \p{Lu} to Ll|Lu|Lt under IgnoreCase but
-// compares the spelling, so \p{Uppercase_Letter} stays case-sensitive (finding ci_category_alias)
+// regression corpus of repaired defect 858f498: the long aliases of the cased-letter categories were not
+// widened to Ll|Lu|Lt under IgnoreCase (addCategory compared the spelling): (?i)\p{Uppercase_Letter} matched
+// "A" but not "a"
 var c20AliasPats = []string{`\p{Uppercase_Letter}`, `\p{Lowercase_Letter}x`, `[\p{Titlecase_Letter}a]`, `[^\p{Uppercase_Letter}]`, `\P{Lowercase_Letter}`, `[a-z-[\p{Uppercase_Letter}]]`}
 
 var c20OrbitPats = []string{
@@ -187,7 +188,7 @@ var c20OrbitSample = []rune{'k', 's', 'µ', 'σ', 'ǅ', 'д', 'θ', 'ω', 'å', 
 var c20Others = []rune{'0', '9', '_', '-', ' ', ',', '\n', '\t', '́', 0x2028, '中'}
 
 func legC20Closed(c *Ctx) {
-	c.Rule("IgnoreCase patterns: the templates and the random-AST generator of leg c20-case (literals, classes, negated classes, subtractions, back-references in both directions, lookarounds, atomic groups, anchors; letters of ASCII/Latin-1/Greek/Cyrillic), hand-written shapes with Unicode categories (incl. the negated cased-letter categories of known finding ci_negated_case_category), both word-boundary dialects, conditionals and letters whose fold orbit has a third member (k s д σ β ǆ å ω). Per pattern the REAL parsed+optimised tree is exported with oracle tables (membership in every class of the tree, unicode.ToLower, IsWordChar, IsECMAWordChar) on a finite universe U = letters of the pattern and of the tree (One/Multi runes, members of the exported classes), their case partners, all ASCII letters, a fixed and a random sample of other letters with their partners, digits/punctuation/newline; relation A (every pattern): sim = the mutual simple case pairs {l,u} inside U (ToLower(u)=l, ToUpper(l)=u; contains every letter whose fold orbit is a plain pair; restricted to the claimed domain ASCII/Latin-1/Greek/Cyrillic + partners, U+0130 U+00D7 U+1E9E have no mutual partner and are therefore case-less here); relation B (back-reference-free trees of a hand-written family with K/ſ/µ/ς/ǅ/ᲁ...): sim = all pairs inside a unicode.SimpleFold orbit. The proved checker ci_closedb must accept the tree (model leg 2001; answer [1]; otherwise the replay names preorder index, node type and rune/set of the first rejected leaf). The known-finding shapes are kept in the corpus, not dropped: (?i)\\P{Lu} (ci_negated_case_category: matches everything) and members U+0130 U+00D7 U+1E9E (outside C16's good_dom: (?i)[İ] = [Ii], (?i)[À-Þ] contains ÷) are membership errors that leave every class closed under case, so the checker must accept them too. Long aliases of the cased-letter categories (\\p{Uppercase_Letter} ...) are not widened under IgnoreCase: guard ci_category_alias. By design outside the claim: case-sensitive islands (?-i:...), block/script categories (\\p{IsGreek} is not folded), relation B with back-references (ToLower does not identify σ/ς). Regression corpus of repaired defect e0fcd53: literals that have a case partner but are neither Lu nor Ll (titlecase ᾈ ǅ, Roman numerals, circled letters) must be Set nodes now. Second part (model leg 2002): single-letter IgnoreCase patterns x, x*, x+?, x{2} for several hundred runes: the leaf of the real tree (node family, option word, rune or class fields) equals Model/CaseLink.unit_leaf computed from unicode.SimpleFold. Non-trivial = the tree has a leaf whose check consults at least one pair (distinct by pattern, options, relation)")
+	c.Rule("IgnoreCase patterns: the templates and the random-AST generator of leg c20-case (literals, classes, negated classes, subtractions, back-references in both directions, lookarounds, atomic groups, anchors; letters of ASCII/Latin-1/Greek/Cyrillic), hand-written shapes with Unicode categories (incl. the negated cased-letter categories of known finding ci_negated_case_category), both word-boundary dialects, conditionals and letters whose fold orbit has a third member (k s д σ β ǆ å ω). Per pattern the REAL parsed+optimised tree is exported with oracle tables (membership in every class of the tree, unicode.ToLower, IsWordChar, IsECMAWordChar) on a finite universe U = letters of the pattern and of the tree (One/Multi runes, members of the exported classes), their case partners, all ASCII letters, a fixed and a random sample of other letters with their partners, digits/punctuation/newline; relation A (every pattern): sim = the mutual simple case pairs {l,u} inside U (ToLower(u)=l, ToUpper(l)=u; contains every letter whose fold orbit is a plain pair; restricted to the claimed domain ASCII/Latin-1/Greek/Cyrillic + partners, U+0130 U+00D7 U+1E9E have no mutual partner and are therefore case-less here); relation B (back-reference-free trees of a hand-written family with K/ſ/µ/ς/ǅ/ᲁ...): sim = all pairs inside a unicode.SimpleFold orbit. The proved checker ci_closedb must accept the tree (model leg 2001; answer [1]; otherwise the replay names preorder index, node type and rune/set of the first rejected leaf). The known-finding shapes are kept in the corpus, not dropped: (?i)\\P{Lu} (ci_negated_case_category: matches everything) and members U+0130 U+00D7 U+1E9E (outside C16's good_dom: (?i)[İ] = [Ii], (?i)[À-Þ] contains ÷) are membership errors that leave every class closed under case, so the checker must accept them too. Regression corpus of repaired defect 858f498: the long aliases \\p{Uppercase_Letter} \\p{Lowercase_Letter} \\p{Titlecase_Letter} must be widened like \\p{Lu} (their negations match everything, as \\P{Lu}: ci_negated_case_category). By design outside the claim: case-sensitive islands (?-i:...), block/script categories (\\p{IsGreek} is not folded), relation B with back-references (ToLower does not identify σ/ς). Regression corpus of repaired defect e0fcd53: literals that have a case partner but are neither Lu nor Ll (titlecase ᾈ ǅ, Roman numerals, circled letters) must be Set nodes now. Second part (model leg 2002): single-letter IgnoreCase patterns x, x*, x+?, x{2} for several hundred runes: the leaf of the real tree (node family, option word, rune or class fields) equals Model/CaseLink.unit_leaf computed from unicode.SimpleFold. Non-trivial = the tree has a leaf whose check consults at least one pair (distinct by pattern, options, relation)")
 	c16Setup()
 	hits := map[string]int{}
 
@@ -384,11 +385,7 @@ func legC20Closed(c *Ctx) {
 		}
 		desc := fmt.Sprintf("pattern %q opts=%s relation=%s: tree (preorder idx:NodeType) %s; |U|=%d, %d pairs; the proved checker must accept it", p.pat, p.o, rel, sb.String(), len(us), np)
 		leafy := th["One"]+th["Notone"]+th["charloop"]+th["Set"]+th["Multi"]+th["Ref"]+th["Boundary"]+th["ECMABoundary"]+th["newline anchor"] > 0
-		guard := ""
-		if p.fam == "alias" {
-			guard = "ci_category_alias"
-		}
-		c.Add(&Case{Desc: desc, ModelLeg: 2001, ModelIn: in, ImplOut: []int64{1}, Nontrivial: leafy, Key: p.pat + p.o.String() + rel, Class: p.fam, Guard: guard})
+		c.Add(&Case{Desc: desc, ModelLeg: 2001, ModelIn: in, ImplOut: []int64{1}, Nontrivial: leafy, Key: p.pat + p.o.String() + rel, Class: p.fam})
 	}
 
 	// ---- the single-letter unit ----
